@@ -218,6 +218,14 @@ def run(ctx):
                        "incl. code-modifying ones; distinct = distinct (program, option set); non-trivial = exit 0 and region present")
     ctx.trusted += ["hand-written models Render.lean / IgnoredScan (Props/C07.lean)", "hooks H1/H3"]
     ctx.assumptions += ["regex markers (processing_cmt_as_regex) are not modelled", "body lines never contain the enable marker / endasm"]
+    try:
+        from translators import t_nldel
+        tab = t_nldel.regenerate(common.REPO, common.ROOT, common.LEAN_DIR, common.write_if_changed)
+        ctx.oblige("T-nldel: Chunk::SafeToDeleteNl() and %d Chunk::Delete sites of src/newlines regenerated (%s)"
+                   % (len(tab["sites"]), ", ".join("%s %s" % t for t in tab["tests"])), True, "table")
+    except Exception as e:
+        ctx.oblige("T-nldel translator parses the current source", False, "table", str(e))
+        ctx.violation("T-nldel no longer parses src/chunk.h / src/newlines: %s" % e, {"translator": "translators/t_nldel.py", "error": str(e)}, found_input=False)
     ctx.lean_obligations()
     common.lean_extra(ctx, "UncModel.Props.RenderMore", ["region_bytes", "region_bytes_embedded"])
     exe = common.build_repo(hooks=True)
